@@ -263,10 +263,92 @@ func c02Scenario(tier string) *core.Scenario {
 	}
 }
 
+// c02Context: the statement under test comes BEHIND another statement of the same mnemonic, register
+// and direction but a different kind of address (absolute <-> register based, other displacement
+// class): whatever is remembered from the first must not leak into the second.
+func c02Context() *core.Scenario {
+	type mem struct {
+		text string
+		spec x86ref.MemSpec
+	}
+	mems := func(mode int) []mem {
+		return []mem{
+			{"[0x1234]", x86ref.MemSpec{Disp: 0x1234, AddrSize: mode, Abs: true}},
+			{"[BX]", x86ref.MemSpec{Base: "BX", AddrSize: 16}},
+			{"[SI+4]", x86ref.MemSpec{Base: "SI", Disp: 4, AddrSize: 16}},
+			{"[BX+0x200]", x86ref.MemSpec{Base: "BX", Disp: 0x200, AddrSize: 16}},
+			{"[EBX]", x86ref.MemSpec{Base: "EBX", AddrSize: 32}},
+			{"[ESI+4]", x86ref.MemSpec{Base: "ESI", Disp: 4, AddrSize: 32}},
+			{"[EBX+ECX*4+0x200]", x86ref.MemSpec{Base: "EBX", Index: "ECX", Scale: 4, Disp: 0x200, AddrSize: 32}},
+			{"[ESP+8]", x86ref.MemSpec{Base: "ESP", Disp: 8, AddrSize: 32}},
+		}
+	}
+	regs := map[int][]string{8: {"AL", "CL"}, 16: {"AX", "DX"}, 32: {"EAX", "EBX"}}
+	ops := []string{"MOV", "ADD", "CMP"}
+	return &core.Scenario{
+		Name: "ea_behind_same_shape", Bound: -1,
+		Rule:   "{MOV,ADD,CMP} x {load,store} x accumulator and non-accumulator registers of 3 widths x every ordered pair of 8 memory operands (absolute, 16-bit and 32-bit register based): the SECOND statement, located by sentinels, must decode to its source meaning; x BITS",
+		Bounds: map[string]any{"ops": ops, "memory_operands": 8, "registers": regs},
+		Build: func(c *core.Chooser) *core.Case {
+			mode := []int{16, 32}[c.Pick("mode", 2)]
+			op := ops[c.Pick("op", len(ops))]
+			w := []int{8, 16, 32}[c.Pick("w", 3)]
+			reg := regs[w][c.Pick("reg", 2)]
+			store := c.Bool("store")
+			ms := mems(mode)
+			a := ms[c.Pick("first", len(ms))]
+			b := ms[c.Pick("second", len(ms))]
+			if mode == 32 && (a.spec.AddrSize == 16 || b.spec.AddrSize == 16) {
+				return nil // 16-bit register addressing is refused under BITS 32
+			}
+			mk := func(m mem) string {
+				if store {
+					return fmt.Sprintf("%s %s,%s", op, m.text, reg)
+				}
+				return fmt.Sprintf("%s %s,%s", op, reg, m.text)
+			}
+			var want x86ref.Want
+			mb := memShape{b.text, b.spec}
+			if store {
+				want = x86ref.Want{Op: op, OpSize: w, Ops: []x86ref.WantOp{wmem(mb, w), wreg(reg)}}
+			} else {
+				want = x86ref.Want{Op: op, OpSize: w, Ops: []x86ref.WantOp{wreg(reg), wmem(mb, w)}}
+			}
+			src := bitsHeader(mode) + "\t" + mk(a) + "\n" + sentinelLine(0) + "\t" + mk(b) + "\n" + sentinelLine(1)
+			base := bitsHeader(mode) + "\t" + mk(a) + "\n" + sentinelLine(0) + sentinelLine(1)
+			return &core.Case{
+				Key:  fmt.Sprintf("BITS %d|%s ; %s", mode, mk(a), mk(b)),
+				Feat: feat("mode", fmt.Sprint(mode), "op", op, "w", fmt.Sprint(w), "reg", reg, "store", fmt.Sprint(store), "first", a.text, "second", b.text),
+				Srcs: []string{src, base},
+				Judge: func(rs []*core.Result) core.Verdict {
+					v := core.Verdict{}
+					if core.ReportsError(rs[0], rs[1]) || core.ReportsError(rs[1], nil) {
+						v.Outcome = "diagnosed"
+						return v
+					}
+					region, ok := between(rs[0].Out, 0, 1)
+					if !ok {
+						v.Outcome = "layout"
+						v.Fails = []core.Fail{{Facet: "layout", Dev: "sentinels_lost", Detail: hexs(rs[0].Out)}}
+						return v
+					}
+					v.Outcome = "ok"
+					v.Nontrivial = len(region) > 0
+					diffs, _ := x86ref.Compare(region, mode, want)
+					for _, d := range diffs {
+						v.Fails = append(v.Fails, core.Fail{Facet: d.Facet, Dev: d.Dev, Detail: d.Info})
+					}
+					return v
+				},
+			}
+		},
+	}
+}
+
 func init() {
 	register(&Property{
 		ID:        "C02",
-		Scenarios: func(tier string) []*core.Scenario { return []*core.Scenario{c02Scenario(tier)} },
+		Scenarios: func(tier string) []*core.Scenario { return []*core.Scenario{c02Scenario(tier), c02Context()} },
 		Pre:       x86refSelfCheck,
 		Assumptions: []string{
 			"effective addresses are compared as linear forms (register -> coefficient, displacement) modulo 2^(address size), so [ECX*1] == [ECX] and base/index may be swapped at scale 1; no particular byte string is demanded",
